@@ -454,8 +454,31 @@ class Orchestrator:  # thailint: ignore[srp]
             return self.lint_files(file_paths)
 
         violations = self._execute_parallel_linting(file_paths, effective_workers)
+        # Cross-file rules (duplicate code, repeated string sets) keep their state in the rule
+        # object: the workers' copies are gone, so the parent collects that state itself.
+        self._collect_cross_file_state(file_paths)
         violations.extend(self._finalize_rules())
         return violations
+
+    def _collect_cross_file_state(self, file_paths: list[Path]) -> None:
+        """Feed every file to the rules that report in finalize() (results of check() are the workers')."""
+        self._ensure_rules_discovered()
+        cross_file_rules = [
+            rule
+            for rule in self.registry.list_all()
+            if type(rule).finalize is not BaseLintRule.finalize
+        ]
+        if not cross_file_rules:
+            return
+        metadata = {**self.config, "_project_root": self.project_root}
+        for file_path in file_paths:
+            if _is_hardcoded_excluded(self._path_in_project(file_path)):
+                continue
+            if self.ignore_parser.is_ignored(file_path):
+                continue
+            context = FileLintContext(file_path, detect_language(file_path), metadata=metadata)
+            for rule in cross_file_rules:
+                self._safe_check_rule(rule, context)
 
     def _execute_parallel_linting(
         self, file_paths: list[Path], max_workers: int
@@ -487,7 +510,7 @@ class Orchestrator:  # thailint: ignore[srp]
         self._ensure_rules_discovered()
         violations: list[Violation] = []
         for rule in self.registry.list_all():
-            violations.extend(rule.finalize())
+            violations.extend(self._drop_linter_ignored(rule.finalize()))
         return violations
 
     def lint_directory_parallel(
